@@ -2,6 +2,7 @@
 
 mod astwalk;
 mod c05;
+mod c06;
 mod c10;
 mod c11;
 mod enc;
@@ -161,6 +162,7 @@ fn main() {
         }
         "gcsweep" => cmd_gcsweep(),
         "c05" => c05::cmd(),
+        "parse" => c06::cmd(),
         "c10api" => c10::cmd(),
         "c11" => c11::cmd(),
         _ => {
